@@ -85,6 +85,18 @@ where
         }
     }
 
+    /// Removes the oldest elements for as long as the given predicate holds.
+    pub fn evict_while(&mut self, predicate: impl Fn(&T) -> bool) {
+        while self.buffer.front().is_some_and(&predicate) {
+            if let Some(element) = self.buffer.pop_front() {
+                let element_size = element.real_size();
+                self.memory_tracker
+                    .decrement_used_memory(element_size.as_bytes_u64());
+                self.current_size -= element_size;
+            }
+        }
+    }
+
     pub fn purge(&mut self) {
         self.buffer.clear();
         self.memory_tracker
